@@ -191,6 +191,40 @@ theorem C04_guard_spec (i : Input) (h : WF i = true) (cur : Name → Option Int)
   rw [Bool.eq_iff_iff, C04_guard i h cur]
   simp [specGuard]
 
+/-- one guard line `_ = x[Name-valueof]`, for EVERY kind and EVERY pair of integers — the boundary values of the
+    kind included, where the difference leaves the type (`127 - (-128)` in int8, `0 - 5` in uint8) and the
+    compiler complains about the overflow instead of the index: it is accepted exactly when the constant
+    still has the printed value -/
+theorem C04_guard_line (k : Kind) (p : Int) (cur : Option Int) : guardLine k p cur = .none ↔ cur = some p :=
+  guardLine_none_iff k p cur
+
+/-- the first complaint of the compiler in the guard function (`guardFirst`, compared with the real
+    compiler's first message by the stale legs) is "none" exactly when the guard is accepted -/
+theorem C04_guard_first (k : Kind) (cs : List Const) (cur : Name → Option Int) :
+    guardFirst k cs cur = .none ↔ guardOK k cs cur = true := guardFirst_none_iff k cs cur
+
+/-! ### the trimmed name (`strings.TrimPrefix(name, typeName)`), corner cases included -/
+
+/-- the type name is removed ONCE from the front, case-sensitively; what follows stays as it is (a second
+    occurrence of the type name included: `ColorColorRed` ↦ `ColorRed`); any other name is left alone -/
+theorem C04_trim_once (T s n : Name) :
+    trim T (T ++ s) = s ∧ (T.isPrefixOf n = false → trim T n = n) ∧
+    ((T.isPrefixOf n = false ∧ trim T n = n) ∨ (T.isPrefixOf n = true ∧ n = T ++ trim T n)) :=
+  ⟨trim_append T s, trim_of_not_prefix T n, trim_decomp T n⟩
+
+/-- the trimmed name is empty only for the type name itself (not a constant name of a Go package next to
+    the type) or the empty name -/
+theorem C04_trim_empty_iff (T n : Name) : trim T n = [] ↔ n = [] ∨ n = T := trim_eq_nil_iff T n
+
+/-- when do two different constants get the same String() / ValueMap() key?  Only when one is named like the
+    other with the type name in front (`TA` next to `A` for type `T`) — the shape the region clause
+    "distinct trimmed names" excludes; among names that all carry the prefix trimming is injective -/
+theorem C04_trim_collision (T a b : Name) :
+    (a ≠ b → trim T a = trim T b →
+      (a = T ++ b ∧ T.isPrefixOf b = false) ∨ (b = T ++ a ∧ T.isPrefixOf a = false)) ∧
+    (T.isPrefixOf a = true → T.isPrefixOf b = true → trim T a = trim T b → a = b) :=
+  ⟨trim_collision T a b, trim_inj_prefixed T a b⟩
+
 def cColor : Name := ['C', 'o', 'l', 'o', 'r']
 def cRed : Name := ['C', 'o', 'l', 'o', 'r', 'R', 'e', 'd']
 def cGreen : Name := ['C', 'o', 'l', 'o', 'r', 'G', 'r', 'e', 'e', 'n']
@@ -274,5 +308,15 @@ example : WF wfExample = true ∧
     stringOf wfExample.kind wfExample.T (tables wfExample) 7 = .name ['G', 'r', 'e', 'e', 'n'] ∧
     stringOf wfExample.kind wfExample.T (tables wfExample) 6 = .dec 6 ∧
     guardOK wfExample.kind (tables wfExample) (fun n => if n = cRed then some 6 else none) = false := by decide
+
+/-! ### non-vacuity: guard lines at the boundary of int8 / uint8, and a doubled prefix -/
+
+example : guardLine ⟨true, 8⟩ (-128) (some 127) = .overflows ∧ guardLine ⟨false, 8⟩ 5 (some 0) = .overflows ∧
+    guardLine ⟨true, 8⟩ 3 (some (-5)) = .negative ∧ guardLine ⟨true, 8⟩ 1 (some 3) = .bounds ∧
+    guardLine ⟨true, 8⟩ (-128) (some (-128)) = .none ∧ guardLine ⟨false, 64⟩ 18446744073709551615 (some 18446744073709551615) = .none ∧
+    guardLine ⟨true, 8⟩ 1 none = .undefined := by decide
+
+example : trim cColor (cColor ++ cRed) = cRed ∧ trim cColor ['c', 'o', 'l', 'o', 'r', 'R'] = ['c', 'o', 'l', 'o', 'r', 'R'] ∧
+    trim ['O', 'p'] ['O', 'p', 'e', 'n'] = ['e', 'n'] := by decide
 
 end ShootVerif.Enum
